@@ -6,7 +6,7 @@ import Cel.Model.Names
     <I|C> <pkg|-> D <n> (<path> <ann>)… B <n> (<path> <val>)… E <expr>     run on a runner model
     spec  <pkg|-> B <n> (<path> <val>)… R <path>                           the Lean `denote`
 
-  <path>  a.b.c            <val>  i<int> | M <n> (<key> <val>)… | L <n> <val>…
+  <path>  a.b.c            <val>  n (null) | i<int> | M <n> (<key> <val>)… | L <n> <val>…
   <expr>  ref <path> | lit <val> | list <n> <expr>… | map <x> <expr> <expr>
 -/
 namespace Cel.Drv.C12
@@ -16,6 +16,7 @@ def parsePath (t : String) : List String := (t.splitOn ".").filter (· ≠ "")
 
 mutual
 partial def parseVal : List String → Option (Val × List String)
+  | "n" :: rest => some (.null, rest)
   | "M" :: n :: rest => do
       let n ← n.toNat?
       let (kvs, r) ← parsePairs n rest
